@@ -15,12 +15,14 @@ META = dict(
     bounds=dict(quick="capture matrix A CONCRETE (exact rationals) from a catalogue: 2x3 (random well-conditioned x2, zero entry, proportional columns, "
                       "receptor seeing one source, equal-entry column), 2x4 (two surplus sources, spaced solutions only); symbolic target (any in-gamut target, "
                       "given as A x0 for symbolic in-bound x0: interior, face, edge and vertex targets alike), symbolic 0 <= lb < ub, symbolic baseline; spaced solutions n in {2,3}",
-                thorough="adds 3x4, 3x5 and the full 2x4 extent proof, spaced n up to 5"),
+                thorough="adds the 3x4 system (extent without the attainment clause, 5 spaced solutions)"),
     stubs=["membership gate (Delaunay): answers True for the in-gamut cases and False for the out-of-gamut cases (membership exactness is C03)",
            "cvxpy -> symcp for the best-fit fallback", "np.linalg.solve -> exact Cramer solve; LinAlgError iff the (concrete) determinant is 0"],
     assumptions=["real arithmetic (exact comparisons are exact); the rounding-sensitivity of these comparisons is the separate perturbed-comparison layer (known finding F10)",
                  "A concrete per catalogue entry: a bound, not a proof for all A (fully symbolic A was probed and is out of reach)"],
-    outside=["matrices outside the catalogue", "float rounding except in the tie layer"],
+    outside=["matrices outside the catalogue", "float rounding except in the tie layer",
+             "systems with two or more surplus sources (2x4, 3x5): the symbolic extent proof did not finish within the 3600 s case limit (probed, with and without the attainment clause); "
+             "the 2x4 spaced case runs in exact arithmetic on sampled inputs only", "attainment of the reported ends for the 3x4 system (unknown after 60 s on 4 of 225 paths)"],
 )
 
 R = fractions.Fraction
@@ -280,7 +282,7 @@ def cases(tier, seed):
         add(f"outside 2x3-rand1 error={error}", "outside_case", cat="2x3-rand1", error=error)
     add("tie 2x3-rand1 (perturbed comparisons)", "tie_case", cat="2x3-rand1")
     if big:
-        # probed and dropped: "extent 2x4-rand1" and "extent 3x5-rand1" (two surplus sources) did not finish within the 3600 s case limit (stated as outside the bound)
-        add("extent 2x4-rand1 (bounds, containment, maximal extent)", "extent_case", cat="2x4-rand1", attain=False, opts=dict(max_paths=50000))
+        # probed and dropped: "extent 2x4-rand1" and "extent 3x5-rand1" (two surplus sources) did not finish within the 3600 s case limit, with or without the
+        # attainment clause (stated as outside the bound)
         add("spaced 3x4-rand1 n=5", "spaced_case", cat="3x4-rand1", nsp=5)
     return C
